@@ -202,7 +202,7 @@ def AlwaysTerminatesFull : Prop :=
     (`deliver`). For the counter of `gather_futures` this is what the lock of fix 6013951 provides (`gather_shipped_sets_outer_once`,
     every interleaving of COUNT / TEST steps); for the other callback bodies (`chain`, `unwrap_future`, the executor's closures)
     it holds on one worker and is an assumption beyond. `always_terminates` is deadlock-freedom (`queue = [] → finished`); that the
-    queue empties is `pending_only_if_schedule_exhausted` + the bound of the harness on the number of tasks (no theorem bounds it). -/
+    queue empties within `weight op` completions is `terminates_within_bound` (Props/C08_progress.lean). -/
 def executorTheoremsAssumeAtomicCallbacks : Unit := ()
 
 /-- **always_terminates.** For every operation, every assignment of resolver modes and EVERY schedule:
